@@ -40,6 +40,21 @@ func MergeyProfile() GenProfile {
 		MaxFieldsPerDoc: 4, MaxToksPerField: 4, Composite: true, DupIDs: true}
 }
 
+type vecFieldSpec struct {
+	name              string
+	dims, metric, opt int
+}
+
+var vecFields = []vecFieldSpec{{"v2", 2, 0, 0}, {"v3", 3, 1, 1}, {"vc", 2, 2, 2}}
+
+// VecProfile mixes ordinary documents with vector fields (integer coordinates: scores are exact).
+func VecProfile() GenProfile {
+	p := MergeyProfile()
+	p.Vec = true
+	p.MinDocs, p.MaxDocs = 1, 9
+	return p
+}
+
 var synThesauri = []string{"syn", "th1", "th2"}
 var synLHS = []string{"a", "ab", "b", "café", "x", "zz", "\x00"}
 var synRHS = []string{"a", "b", "x", "y", "quick", "日本", "zz"}
@@ -196,6 +211,7 @@ func GenBatch(r *rand.Rand, p *GenProfile, idBase int) []Doc {
 		cp.TermPool = tp[:k]
 		p = &cp
 	}
+	vecSeen := map[string][]Ints{}
 	docs := make([]Doc, n)
 	for i := range docs {
 		id := B(fmt.Sprintf("d%05d", idBase+i))
@@ -243,6 +259,29 @@ func GenBatch(r *rand.Rand, p *GenProfile, idBase int) []Doc {
 			continue
 		}
 		nf := r.Intn(p.MaxFieldsPerDoc + 1)
+		if p.Vec && r.Intn(4) != 0 {
+			// vector fields: 0..3 integer vectors of one field in a document, duplicates across documents
+			for _, vf := range vecFields {
+				if r.Intn(3) == 0 {
+					continue
+				}
+				k := 1
+				if r.Intn(4) == 0 {
+					k = 2 + r.Intn(2)
+				}
+				vec := Ints{}
+				for s := 0; s < k; s++ {
+					for c := 0; c < vf.dims; c++ {
+						vec = append(vec, r.Intn(7)-3)
+					}
+				}
+				if i > 0 && r.Intn(6) == 0 && len(vecSeen[vf.name]) > 0 {
+					vec = append(Ints{}, vecSeen[vf.name][r.Intn(len(vecSeen[vf.name]))]...) // a duplicate of an earlier vector
+				}
+				vecSeen[vf.name] = append(vecSeen[vf.name], vec[:vf.dims])
+				d.Fields = append(d.Fields, FieldInst{Name: B(vf.name), Kind: KindVec, Vec: vec, Dims: vf.dims, Metric: vf.metric, Opt: vf.opt})
+			}
+		}
 		if p.Lean {
 			nf = 1 + r.Intn(p.MaxFieldsPerDoc)
 		}
